@@ -893,7 +893,8 @@ func (r *resolver) findGrouping(y *Uses) (*Grouping, error) {
 				// issue #50 - submodules can reference types in parent and in any
 				// other submodule w/o prefix
 				if m, isModule := p.(*Module); isModule && m.belongsTo != nil {
-					p = m.Parent().(Definition)
+					// (a submodule loaded on its own has no module to continue in)
+					p, _ = m.Parent().(Definition)
 				}
 			}
 		}
